@@ -911,6 +911,18 @@ Module BlockTrees.
   Qed.
   Print Assumptions C04_block_engine_instance.
 
+  (* the same for ANY preprocessing and absolute-item routine satisfying the two premises (e.g. the translated absolute
+     routine, once AbsChildRel is shown for it) *)
+  Theorem C04_block_engine_instance_parametric :
+    forall k (pre : BStyle XQ -> BIn XQ -> BIn XQ) (abs_child : @AbsChild XQ), 0 < k ->
+      PreRel k (bstyle_rel k) pre -> AbsChildRel k (bstyle_rel k) abs_child ->
+      forall f t t' i i',
+        trel (BNode XQ) (BIn XQ) (ChildOut XQ) (BLayout XQ) (bnode_rel k) (bin_rel k) (bout_rel k) (blay_rel k) t t' -> bin_rel k i i' ->
+        oprel (res_rel (BNode XQ) (BIn XQ) (ChildOut XQ) (BLayout XQ) (bnode_rel k) (bin_rel k) (bout_rel k) (blay_rel k))
+              (bl_memo pre abs_child f t i) (bl_memo pre abs_child f t' i').
+  Proof. intros k pre abs_child Hk. apply (block_engine_homog k Hk). Qed.
+  Print Assumptions C04_block_engine_instance_parametric.
+
   (* "multiplying every length of the tree by k multiplies every unrounded output length of every node by k": fresh trees,
      the input scaled functionally; blay_rel k l l' says l' is l with every length multiplied by k, up to the equality of
      rationals (blay_rel_scale: blay_rel k l (blay_scale k l)) *)
@@ -938,19 +950,18 @@ Module BlockTrees.
      eight nodes are as listed, and every field of every stored layout and of the root output is multiplied by 5/2 *)
   Example C04_block_engine_example :
     skrel (BNode XQ) (bnode_rel (5 # 2)) ex_tree (ex_tree_scaled (5 # 2)) /\
+    skrel (BNode XQ) (bnode_rel (5 # 2)) ex_subtree (ex_subtree_scaled (5 # 2)) /\
     bin_rel (5 # 2) ex_input (bin_scale (5 # 2) ex_input) /\
-    match ex_run ex_tree ex_input, ex_run (ex_tree_scaled (5 # 2)) (bin_scale (5 # 2) ex_input) with
-    | Some (o, t1), Some (o', t1') =>
-        list_eqb box_eqb (boxes t1)
-                 [box 0 0 0 0; box 6 10 200 24; box 6 40 200 44; box 4 4 52 22; box 0 0 0 0; box 4 26 192 14; box 6 84 0 0; box 6 84 100 12]
-        && bsz_eqb (co_size o) (mkSize (qz 212) (qz 102))
-        && list_eqb blay_eqb (map (blay_scale (5 # 2)) (lays (BNode XQ) (BIn XQ) (ChildOut XQ) (BLayout XQ) t1))
-                    (lays (BNode XQ) (BIn XQ) (ChildOut XQ) (BLayout XQ) t1')
-        && bout_eqb (bout_scale (5 # 2) o) o'
-    | _, _ => false
-    end = true.
+    ex_boxes ex_tree ex_input
+             [box 0 0 0 0; box 6 10 200 24; box 6 40 200 44; box 4 4 52 22; box 0 0 0 0; box 4 26 192 14; box 6 84 0 0; box 6 84 100 12] = true /\
+    ex_root_size ex_tree ex_input 212 102 = true /\
+    ex_scaled_ok (5 # 2) ex_tree (ex_tree_scaled (5 # 2)) ex_input = true /\
+    (* the container B alone under max-content: its width is content-based (52 + 8), found by measuring queries *)
+    ex_root_size ex_subtree ex_input_max 60 44 = true /\
+    ex_scaled_ok (5 # 2) ex_subtree (ex_subtree_scaled (5 # 2)) ex_input_max = true.
   Proof.
-    split; [apply ex_scaled_rel; reflexivity|]. split; [apply bin_rel_scale|]. vm_compute. reflexivity.
+    split; [apply ex_scaled_rel; reflexivity|]. split; [apply ex_scaled_rel; reflexivity|]. split; [apply bin_rel_scale|].
+    repeat split; vm_compute; reflexivity.
   Qed.
   Print Assumptions C04_block_engine_example.
 End BlockTrees.
